@@ -192,6 +192,40 @@ def _gen(rng, tier):
                         T[i][j] = hop
                 T[i][i] = 1 - sum(T[i])
             yield {'k': 'mat', 'M': [[str(x) for x in r] for r in T], 'style': 'metastable-line'}
+    for _ in range(G.budget(8) if tier == 'quick' else 200):
+        # DOUBLY stochastic matrices that are not ergodic (every column sums to one too, the uniform vector is stationary):
+        # the identity, permutations, symmetric blocks side by side
+        n = rng.randint(2, 7)
+        v = rng.choice(['identity', 'perm', 'blocks', 'blocks'])
+        T = [[Fraction(0)] * n for _ in range(n)]
+        if v == 'identity':
+            for i in range(n):
+                T[i][i] = Fraction(1)
+        elif v == 'perm':
+            p_ = list(range(n))
+            rng.shuffle(p_)
+            for i in range(n):
+                T[i][p_[i]] = Fraction(1)
+        else:
+            cut = rng.randint(1, n - 1)
+            for lo_, hi_ in ((0, cut), (cut, n)):
+                m_ = hi_ - lo_
+                a_ = Fraction(rng.randint(1, 9), 10 * max(1, m_ - 1)) if m_ > 1 else Fraction(0)
+                for i in range(lo_, hi_):
+                    for j in range(lo_, hi_):
+                        T[i][j] = a_ if i != j else 1 - a_ * (m_ - 1)
+        yield {'k': 'mat', 'M': [[str(x) for x in r] for r in T], 'style': 'doubly-stochastic-' + v}
+    for _ in range(G.budget(8) if tier == 'quick' else 200):
+        # rows that sum to one only within the accepted 1e-8 (all rows, or one, scaled by 1 +- d with d up to 9.9e-9):
+        # still a transition matrix by the library's own definition, and as ergodic as the exact one
+        n = rng.randint(2, 8)
+        Cm = [[rng.randint(1, 9) for _ in range(n)] for _ in range(n)]
+        T = _norm(Cm)
+        d = Fraction(rng.randint(20, 99), 10**10) * rng.choice([1, 1, -1])
+        rows = range(n) if rng.random() < 0.6 else [rng.randrange(n)]
+        for i in rows:
+            T[i] = [x * (1 + d) for x in T[i]]
+        yield {'k': 'mat', 'M': [[str(x) for x in r] for r in T], 'style': 'rows-within-tolerance'}
     for _ in range(6 if tier == 'quick' else 60):
         n, m = rng.choice([(2, 3), (3, 2), (1, 1), (3, 1), (1, 4)])
         yield {'k': 'nonsquare', 'M': [[str(Fraction(1, m))] * m for _ in range(n)], 'style': 'nonsquare'}
